@@ -541,6 +541,45 @@ func (a *FA) lin(v ssa.Value, depth int) Lin {
 			if k, ok := constInt64(stripConv(x.X)); ok {
 				return linConst(0).addScaled(a.lin(x.Y, depth+1), k)
 			}
+			// a product with a genuine sum distributes: w*(j+1) = w*j + w. Products of two atoms keep the name the
+			// value numbering gives them, "(* l r)" with sorted operands, so that both spellings meet.
+			if isIntType(x.Type()) {
+				LX, LY := a.lin(x.X, depth+1), a.lin(x.Y, depth+1)
+				nx, ny := len(LX.T), len(LY.T)
+				if LX.K != 0 {
+					nx++
+				}
+				if LY.K != 0 {
+					ny++
+				}
+				unit := func(L Lin) bool {
+					for _, c := range L.T {
+						if c != 1 && c != -1 {
+							return false
+						}
+					}
+					return true
+				}
+				if (nx > 1 || ny > 1) && nx <= 3 && ny <= 3 && unit(LX) && unit(LY) {
+					res := linConst(LX.K * LY.K)
+					res = res.addScaled(Lin{T: LX.T}, LY.K)
+					res = res.addScaled(Lin{T: LY.T}, LX.K)
+					for ax, cx := range LX.T {
+						for ay, cy := range LY.T {
+							l, r := ax, ay
+							if r < l {
+								l, r = r, l
+							}
+							name := "(* " + l + " " + r + ")"
+							res.T[name] += cx * cy
+							if res.T[name] == 0 {
+								delete(res.T, name)
+							}
+						}
+					}
+					return res
+				}
+			}
 		case token.SHL:
 			if k, ok := constInt64(stripConv(x.Y)); ok && k >= 0 && k < 62 {
 				return linConst(0).addScaled(a.lin(x.X, depth+1), int64(1)<<uint(k))
@@ -562,6 +601,10 @@ func (a *FA) lin(v ssa.Value, depth int) Lin {
 		// len(x[lo:hi]) = hi - lo, len(x[lo:]) = len(x) - lo   (slices and strings; a helper that returns a sub-slice
 		// and is measured by its caller must read like the arithmetic on the lengths it stands for)
 		if b, ok := x.Call.Value.(*ssa.Builtin); ok && b.Name() == "len" && len(x.Call.Args) == 1 {
+			// len(make([]T, n)) = n (a slice value is immutable: later appends produce other values)
+			if mk, ok := x.Call.Args[0].(*ssa.MakeSlice); ok {
+				return a.lin(mk.Len, depth+1)
+			}
 			if sl, ok := x.Call.Args[0].(*ssa.Slice); ok {
 				if _, isPtr := sl.X.Type().Underlying().(*types.Pointer); !isPtr {
 					var hi Lin
@@ -620,6 +663,9 @@ func (a *FA) LinAlts(v ssa.Value, cap int) []Lin {
 
 // lenOf: the linear form of len(x) for a slice or string value x that is not itself the operand of a len call.
 func (a *FA) lenOf(x ssa.Value, depth int) Lin {
+	if mk, ok := x.(*ssa.MakeSlice); ok {
+		return a.lin(mk.Len, depth+1)
+	}
 	if sl, ok := x.(*ssa.Slice); ok {
 		if _, isPtr := sl.X.Type().Underlying().(*types.Pointer); !isPtr {
 			var hi Lin
